@@ -200,7 +200,7 @@ def enabled(model, depth_max, raised, nobj_max, argsets):
     if len(margs) < nobj_max:
         for a in argsets:
             evs.append(("create",) + a + (0,))
-            if margs:  # the first context is made from register object 0 (symmetry)
+            if len(margs) == 1:  # the first context is made from register object 0 (symmetry); the second from either; a third from object 0
                 evs.append(("create",) + a + (1,))
     if len(stack) < depth_max:
         for k in range(len(margs)):
